@@ -214,8 +214,8 @@ def c14_spec():
                 if 'WARNING: ThreadSanitizer' not in blk: continue
                 nrep += 1
                 kind = re.search(r'WARNING: ThreadSanitizer: ([^(\n]+)', blk).group(1).strip().replace(' ', '-')
-                frames = re.findall(r'#\d+ (manif::[^\n]*?) (/repo/include/[^ \n]+)', blk)
-                inrepo = '/repo/include' in blk
+                frames = re.findall(r'#\d+ (manif::[^\n]*?) (' + re.escape(CK.REPO) + r'/include/[^ \n]+)', blk)
+                inrepo = (CK.REPO + '/include') in blk
                 where = sorted(set(re.sub(r'<.*', '', fr[0])[:50] + '@' + os.path.basename(fr[1]).split(':')[0] for fr in frames[:1] + frames[-1:])) if frames else ['no-manif-frame']
                 key = 'tsan-%s/%s' % (kind, '+'.join(where)[:120])
                 d = dedup.setdefault(key, {'n': 0, 'first': blk[:3000], 'inrepo': inrepo}); d['n'] += 1
